@@ -51,7 +51,7 @@ def xrun(fam, cases):
         m = model.get(c["id"])
         d = core.parse_driver(m) if m else {"obs": None}
         recs[c["id"]] = {"impl": i, "model": d.get("obs"), "spec": d.get("spec"), "ispec": d.get("ispec"),
-                         "dom": d.get("dom"), "nt": d.get("nt")}
+                         "dom": d.get("dom"), "nt": d.get("nt"), "amb": d.get("amb")}
     return recs, (rc, err, rc2, err2)
 
 
@@ -118,6 +118,8 @@ def check(fam, tier, seed, replay=None):
                 infra.append("harness rc=%s %s / driver rc=%s %s" % (rcs[0], rcs[1][-300:], rcs[2], rcs[3][-300:]))
         for c in cases:
             r = recs.get(c["id"], {})
+            if r.get("amb") == "1":
+                continue      # outcome depends on Go's map iteration order: no comparison, no verdict
             if r.get("impl") is None or r.get("model") is None:
                 disagree.append(c)
                 continue
@@ -154,7 +156,7 @@ def check(fam, tier, seed, replay=None):
         def still(cand):
             rr, _ = xrun(fam, [cand])
             return (rr["shrink"].get("ispec") or "-") == r["ispec"]
-        small = shrink(fam, c, still) if not replay else c
+        small = shrink(fam, c, still, budget=120) if (not replay and len(reported) < 2) else c
         rr, _ = xrun(fam, [dict(small, id="shrink")])
         rs = rr["shrink"]
         k = match_known(prop, fam, small, rs)
